@@ -30,7 +30,7 @@ let val_obj n = { kz = Z0; kid = n_of_int (2 * n + 1) }
 let name_of_id i =
   if i land 1 = 1 then Printf.sprintf "v%d" (i / 2)
   else let q = i / 2 in Printf.sprintf "%d.%d" (q / 16) (q mod 16)
-let s_obj (o : obj) = name_of_id (int_of_n o.kid)
+let s_obj (o : key) = name_of_id (int_of_n o.kid)
 let s_kv (k, v) = s_obj k ^ "=" ^ s_obj v
 let s_list f l = "[" ^ String.concat " " (List.map f l) ^ "]"
 
